@@ -35,7 +35,10 @@ def one(change, seeds, tier, also, record):
     try:
         rc, out = sh("git apply %s/patch.diff" % d, cwd=wt)
         if rc:
-            return change, None, "patch does not apply: " + out
+            # a later fix: commit touched neighbouring lines: try a three-way merge
+            rc, out2 = sh("git apply -3 %s/patch.diff" % d, cwd=wt)
+            if rc or "with conflicts" in out2:
+                return change, None, "patch does not apply: " + out + out2
         env = dict(ENV, VERIF_ALT_REPO=wt)
         for cid in [pid] + also:
             for s in seeds:
